@@ -57,9 +57,10 @@ PARAMS = {fa: ['p', 'q', 'r', 'k'], fb: ['p', 'q', 's', 'extra1', 'extra2'], fc:
 
 
 class Gen:
-  def __init__(self, r, tuples=False):
+  def __init__(self, r, tuples=False, custom=False):
     self.r = r
     self.tuples = tuples
+    self.custom = custom
     self.pool = []
 
   def leaf(self):
@@ -72,7 +73,10 @@ class Gen:
     if depth <= 0 or r.random() < 0.3:
       return self.leaf()
     x = r.random()
-    if x < 0.5:
+    if self.custom and r.random() < 0.3:
+      # a value of a user-registered node type (not one of list / tuple / dict / Buildable)
+      v = graphs.Pair(self.value(depth - 1), self.leaf())
+    elif x < 0.5:
       v = self.cfg(depth - 1)
     elif x < 0.72:
       v = [self.value(depth - 1) for _ in range(r.randint(0, 3))]
@@ -115,6 +119,16 @@ def edit(r, new, g):
   fn = n.__fn_or_cls__
   x = r.random()
   keys = [k for k in n.__arguments__ if isinstance(k, str)]
+  if x < 0.09:
+    ps = [v for v, _ in daglish.iterate(new) if isinstance(v, graphs.Pair)]
+    if ps:
+      # a field of a custom node changes in place (the node stays where it is)
+      c = r.choice(ps)
+      if r.random() < 0.6:
+        c.right = g.leaf()
+      else:
+        c.left = g.value(1)
+      return 'custom'
   if x < 0.06:
     # an entry added to / removed from a container (also an EMPTY one) that stays in place
     cs = containers(new)
@@ -137,7 +151,14 @@ def edit(r, new, g):
   if x < 0.32:
     other = r.choice([f for f in FNS if f is not fn])
     try:
+      carried = dict(n.__arguments__)
       fdl.update_callable(n, other, drop_invalid_args=True)
+      if other is fb:
+        # every argument of the old callable is still valid (through **kw): the pair differs in
+        # the callable only, whatever update_callable itself chose to keep
+        for k, v in carried.items():
+          if isinstance(k, str) and k not in n.__arguments__:
+            setattr(n, k, v)
       # update_callable keeps tags of parameters the new callable does not have; a well-formed
       # configuration only tags parameters of its callable
       valid = set(PARAMS[other]) if other is not fb else None
@@ -198,19 +219,19 @@ def reaches(a, b):
   return any(v is b for v, _ in daglish.iterate(a))
 
 
-def make_pair(seed, depth=2, n_edits=3, flavour='edits', tuples=False):
+def make_pair(seed, depth=2, n_edits=3, flavour='edits', tuples=False, custom=False):
   r = random.Random(seed)
-  g = Gen(r, tuples=tuples)
+  g = Gen(r, tuples=tuples, custom=custom)
   btype = r.choice([fdl.Config, fdl.Partial])
   old = g.cfg(depth, btype=btype)
   kinds = []
   if flavour == 'unrelated':
-    g2 = Gen(r, tuples=tuples)
+    g2 = Gen(r, tuples=tuples, custom=custom)
     new = g2.cfg(depth, btype=btype)
     kinds = ['unrelated']
   elif flavour == 'shared':
     # new shares objects with old by identity
-    g2 = Gen(r, tuples=tuples)
+    g2 = Gen(r, tuples=tuples, custom=custom)
     g2.pool = [v for v in buildables(old)[1:] + containers(old)]
     new = g2.cfg(depth, btype=btype)
     kinds = ['shared']
@@ -228,4 +249,10 @@ def make_pair(seed, depth=2, n_edits=3, flavour='edits', tuples=False):
         continue
       new = trial
       kinds.append(kind)
+    if custom and 'custom' not in kinds:
+      ps = [v for v, _ in daglish.iterate(new) if isinstance(v, graphs.Pair)]
+      if ps:
+        c = r.choice(ps)
+        c.right = ('edited', r.randint(0, 99))
+        kinds.append('custom')
   return old, new, kinds
